@@ -168,7 +168,7 @@ pub fn record(args: &Args) {
                 if !(biggest.is_finite()) {
                     break;
                 }
-                match run_watched(t, meth, preset, k, u64::MAX, thr, sd, 30) {
+                match run_watched(t, meth, preset, k, u64::MAX, thr, sd, 120) {
                     Some(Ok(r)) => {
                         runs += 1;
                         early += 1;
@@ -178,7 +178,7 @@ pub fn record(args: &Args) {
                     Some(Err(msg)) => failed.push(json!({"game": name, "k": k, "budget": "u64::MAX", "r": thr.to_string(), "what": msg})),
                     None => {
                         failed.push(json!({"game": name, "k": k, "budget": "u64::MAX", "r": thr.to_string(),
-                            "what": "no return within 30 s although the unthresholded series crosses the threshold"}));
+                            "what": "no return within 120 s although the unthresholded series crosses the threshold"}));
                         hung = true;
                         break;
                     }
